@@ -227,6 +227,71 @@ fn shaped(seed: u64, shapes: &[(usize, usize)], all_pairs: bool) -> Vec<Case> {
     out
 }
 
+/// see the comment inside: dense overlap of short prover-side calls on all workers
+fn prover_burst(ctx: &Ctx, rep: &Report) {
+    // prover burst: all workers issue thousands of short prover-side calls at once (commit, proof_gen,
+    // blind_proof_gen over prepared signatures); every call must succeed and every eighth result is verified.
+    // Short calls make the windows of any shared prover-side state (pools, caches being refilled) overlap densely.
+    {
+        let iters = ctx.tier.pick(1200usize, 8000usize);
+        let r = contend("prover-burst", ctx.workers.max(4), 1, |t, _round| {
+            let suite = if t % 2 == 0 { SuiteId::Sha256 } else { SuiteId::Shake256 };
+            with_suite!(suite, CS => {
+                let ck = "prover-burst";
+                let cj = |k: usize| json!({"thread": t, "iteration": k, "suite": suite.name()});
+                let kp = keypair::<CS>(&KeySpec { fixture: false, ikm: BSpec { len: 32, class: 0, seed: 4242 + t as u32 }, key_info: OptBytes::None, key_dst: OptBytes::None }).unwrap();
+                let (sk, pk) = (kp.private_key(), kp.public_key());
+                let msgs: Vec<Vec<u8>> = (0..3).map(|j| format!("m{}-{}", j, t).into_bytes()).collect();
+                let cm: Vec<Vec<u8>> = (0..(t % 3)).map(|j| format!("c{}-{}", j, t).into_bytes()).collect();
+                let sig = Signature::<BBSplus<CS>>::sign(Some(&msgs), sk, pk, Some(b"h")).map_err(|e| harness_fail(ck, "sign", format!("{:?}", e), cj(0)))?;
+                for k in 0..iters {
+                    rep.eval(ck, 1);
+                    let (com, bf) = match catch(|| Commitment::<BBSplus<CS>>::commit(Some(&cm))) {
+                        Ok(Ok(x)) => x,
+                        Ok(Err(e)) => return rep.fail(ck, "commit-failed", format!("commit under load: {:?}", e), cj(k)),
+                        Err(p) => return rep.fail(ck, "commit-panicked", format!("commit under load panicked: {}", p), cj(k)),
+                    };
+                    if k % 4 == 0 {
+                        rep.eval(ck, 1);
+                        match catch(|| PoKSignature::<BBSplus<CS>>::proof_gen(pk, &sig.to_bytes(), Some(b"h"), None, Some(&msgs), Some(&[1usize][..]))) {
+                            Ok(Ok(p)) => {
+                                if k % 8 == 0 && p.proof_verify(pk, Some(&msgs[1..2]), Some(&[1usize][..]), Some(b"h"), None).is_err() {
+                                    return rep.fail(ck, "proof-verify-failed", "proof generated under load does not verify".into(), cj(k));
+                                }
+                            }
+                            Ok(Err(e)) => return rep.fail(ck, "proof-gen-failed", format!("proof_gen under load: {:?}", e), cj(k)),
+                            Err(p) => return rep.fail(ck, "proof-gen-panicked", format!("proof_gen under load panicked: {}", p), cj(k)),
+                        }
+                    }
+                    if k % 8 == 0 {
+                        rep.eval(ck, 1);
+                        let bs = match BlindSignature::<BBSplus<CS>>::blind_sign(sk, pk, Some(&com.to_bytes()), Some(b"h"), Some(&msgs)) {
+                            Ok(b) => b,
+                            Err(e) => return rep.fail(ck, "blind-sign-failed", format!("blind_sign under load refuses an honest commitment: {:?}", e), cj(k)),
+                        };
+                        if bs.verify_blind_sign(pk, Some(b"h"), Some(&msgs), Some(&cm), Some(&bf)).is_err() {
+                            return rep.fail(ck, "verify-blind-sign-failed", "blind signature issued under load does not verify".into(), cj(k));
+                        }
+                        match catch(|| PoKSignature::<BBSplus<CS>>::blind_proof_gen(pk, &bs.to_bytes(), Some(b"h"), None, Some(&msgs), Some(&cm), Some(&[0usize][..]), None, Some(&bf))) {
+                            Ok(Ok(_)) => {}
+                            Ok(Err(e)) => return rep.fail(ck, "blind-proof-gen-failed", format!("blind_proof_gen under load: {:?}", e), cj(k)),
+                            Err(p) => return rep.fail(ck, "blind-proof-gen-panicked", format!("blind_proof_gen under load panicked: {}", p), cj(k)),
+                        }
+                    }
+                }
+                Ok(())
+            })
+        });
+        if let Err(f) = r {
+            rep.add_violation(f);
+        }
+    }
+}
+
+fn harness_fail(ck: &str, site: &str, msg: String, case: Value) -> Fail {
+    Fail { check: ck.into(), site: site.into(), msg, case }
+}
+
 pub fn run(ctx: &Ctx, rep: &Report) -> Meta {
     // the same checks with all workers released from one barrier in a cold process (shared state under contention)
     {
@@ -239,6 +304,7 @@ pub fn run(ctx: &Ctx, rep: &Report) -> Meta {
             rep.add_violation(f);
         }
     }
+    prover_burst(ctx, rep);
     let lim = ctx.tier.pick(3usize, 4usize);
     let mut small = vec![];
     for l in 0..=lim {
@@ -273,7 +339,7 @@ pub fn run(ctx: &Ctx, rep: &Report) -> Meta {
     let tier = ctx.tier;
     run_cases(ctx, rep, "random-shapes", ctx.tier.pick(64, 600), 100, || strat(tier), |c| check(rep, "random-shapes", c));
     Meta {
-        rule: "suite x key x header x ph x committed messages (M >= 0) x signer messages (L >= 0): commit, blind_sign over the commitment octets, verify_blind_sign, \
+        rule: "prover-burst: all workers issue 1200 (quick) / 8000 (thorough) commits each at once, every fourth followed by proof_gen, every eighth by blind_sign + verify_blind_sign + blind_proof_gen, all of which must succeed; suite x key x header x ph x committed messages (M >= 0) x signer messages (L >= 0): commit, blind_sign over the commitment octets, verify_blind_sign, \
                octet round trips of commitment / signature / blind factor, issuance without commitment (None and empty spelling), then blind_proof_gen + blind_proof_verify for ALL 2^L x 2^M disclosure pairs \
                (L, M <= 3 quick / 4 thorough, both suites) and class-sampled pairs for larger shapes incl. L+1+M > 16; shapes (k,0), (0,k), (k,k/2+1), (k mod 5,k) for every k up to 40 / 130, fixed shapes under contention, half of the cases after a warm-up history; oracle: every step Ok, decoded objects equal, proof length 272 + 32*U; \
                non-trivial = a disclosure pair executed on a shape; evaluations = verifications"
@@ -283,6 +349,12 @@ pub fn run(ctx: &Ctx, rep: &Report) -> Meta {
 }
 
 pub fn replay(_ctx: &Ctx, rep: &Report, ck: &str, case: &Value) -> CheckResult {
+    if ck == "prover-burst" {
+        // the schedule is part of the case: the burst is run again as a whole
+        let before = rep.violation_count();
+        prover_burst(_ctx, rep);
+        return if rep.violation_count() > before { Err(Fail { check: ck.into(), site: "reproduced-under-contention".into(), msg: "the prover burst fails again".into(), case: case.clone() }) } else { Ok(()) };
+    }
     let c: Case = serde_json::from_value(case["case"].clone()).map_err(|e| Fail {
         check: ck.into(),
         site: "replay-parse".into(),
